@@ -122,6 +122,14 @@ def write_events(ctx, objs):
             obj.ascii_headers.clear()
         for k_, v_ in hs:
             obj.ascii_headers[k_] = v_
+        if kind == 'privkey':
+            # history: the public half has been derived and given headers of its own; they belong to that object only
+            try:
+                half = obj.pubkey
+                half.ascii_headers['Comment'] = 'set on the derived public key'
+                half.ascii_headers['X-Other'] = 'not mine'
+            except Exception:
+                pass
         try:
             text = str(obj)
             binary = bytes(obj)
